@@ -11,6 +11,8 @@
 """
 from types import SimpleNamespace
 
+from vf.hutil import pick
+
 from sdc11073 import observableproperties as _op
 from sdc11073.provider import subscriptionmgr_async as sma
 from sdc11073.provider import subscriptionmgr_base as smb
@@ -49,7 +51,11 @@ class FakeThread:
         pass
 
 
-def _raise_outcome(outcome):
+def _raise_outcome(pool):
+    # the outcome may be a (symbolic) selector into OUTCOMES: it is resolved only when a message is really handed over
+    outcome = pool.outcome
+    if not isinstance(outcome, str):
+        outcome = pool.outcome = pick(outcome, OUTCOMES)
     if outcome == 'http_error':
         raise HTTPReturnCodeError(500, 'stub', None)
     if outcome == 'refused':
@@ -66,12 +72,12 @@ class FakeSoapClient:
 
     def post_message_to(self, path, message, msg=''):  # noqa: ARG002
         self.pool.log.append((self.netloc, path, message))
-        _raise_outcome(self.pool.outcome)
+        _raise_outcome(self.pool)
         self.roundtrip_time = 0.001
 
     async def async_post_message_to(self, path, message, msg=''):  # noqa: ARG002
         self.pool.log.append((self.netloc, path, message))
-        _raise_outcome(self.pool.outcome)
+        _raise_outcome(self.pool)
         self.roundtrip_time = 0.001
 
     def close(self):
